@@ -192,6 +192,26 @@ def conv_arms(src, from_ty, to_ty, coqname):
     return "Definition %s : list (list N * list N * list (list N * list N)) :=\n  [%s]." % (coqname, ';\n   '.join(rows))
 
 
+def conv_struct(src, from_ty, to_ty, coqname):
+    """`impl From<&from_ty> for to_ty { fn from(value) -> Self { Self { f: value.g.into(), .. } } }`:
+    [(target field, source field)]"""
+    body = block_after(src, r'impl\s+From<&' + from_ty + r'>\s+for\s+' + to_ty + r'\s*\{')
+    m = re.search(r'fn\s+from\s*\(\s*(\w+)\s*:', body)
+    if not m:
+        raise Untranslatable("From<&%s>: fn from not found" % from_ty)
+    arg = m.group(1)
+    init = block_after(block_after(body, r'fn\s+from[^{]*\{'), r'\bSelf\s*\{')
+    pairs = []
+    for f in split_top(init):
+        if not f.strip():
+            continue
+        fm = re.match(r'^\s*(\w+)\s*:\s*\(?\s*&?\s*' + arg + r'\.(\w+)\s*\)?\s*\.into\(\)\s*$', f, re.S)
+        if not fm:
+            raise Untranslatable("From<&%s>: field init `%s`" % (from_ty, ' '.join(f.split())))
+        pairs.append("(%s, %s)" % (coq_str(fm.group(1)), coq_str(fm.group(2))))
+    return "Definition %s : list (list N * list N) := [%s]." % (coqname, '; '.join(pairs))
+
+
 def gen_schema_decl(src, attempt):
     out = ["(* GENERATED by tools/translate.py from the Rust sources. Do not edit. *)",
            "From PV Require Import Base SchemaDecl.", "Open Scope N_scope.", ""]
@@ -210,6 +230,8 @@ def gen_schema_decl(src, attempt):
     out.append("(* the From conversions, arm by arm *)")
     attempt(out, 'schema/owned.rs:From<&DataModelType>', lambda: conv_arms(o, 'DataModelType', 'OwnedDataModelType', 'conv_dmt'), 'conv_dmt')
     attempt(out, 'schema/owned.rs:From<&Data>', lambda: conv_arms(o, 'Data', 'OwnedData', 'conv_data'), 'conv_data')
+    attempt(out, 'schema/owned.rs:From<&NamedField>', lambda: conv_struct(o, 'NamedField', 'OwnedNamedField', 'conv_named_field'), 'conv_named_field')
+    attempt(out, 'schema/owned.rs:From<&Variant>', lambda: conv_struct(o, 'Variant', 'OwnedVariant', 'conv_variant'), 'conv_variant')
     return '\n'.join(out) + '\n'
 
 
@@ -336,6 +358,57 @@ def panic_arms(fsrc, fname, enum_prefix, what, occurrence=0):
     return rows
 
 
+LIT = re.compile(r'"((?:[^"\\]|\\.)*)"')
+
+
+def unescape(lit):
+    return bytes(lit, 'utf-8').decode('unicode_escape').encode('latin-1').decode('utf-8')
+
+
+def fmt_literals(fsrc, what):
+    """string literals of every arm of the formatter, in source order: (kind, [literals])"""
+    sig, body = find_fn(fsrc, 'fmt_owned_dmt_to_buf', 0)
+    # the closure over OwnedData
+    cm = re.search(r'let\s+fmt_data\s*=\s*\|[^|]*\|\s*match\s+\w+\s*\{', body)
+    if not cm:
+        raise Untranslatable("%s: fmt_data closure not found" % what)
+    cblk = block_after(body[cm.start():], r'\bmatch\s+\w+\s*\{')
+    drows = []
+    for arm in split_arms(cblk):
+        m = re.match(r'^OwnedData::(\w+)\s*(?:\([^)]*\))?\s*=>\s*(.*)$', arm, re.S)
+        if not m:
+            raise Untranslatable("%s: fmt_data arm `%s`" % (what, ' '.join(arm.split())[:80]))
+        drows.append((m.group(1), [unescape(x) for x in LIT.findall(m.group(2))]))
+    rest = body[cm.start() + len(cblk):]
+    best = None
+    for m in re.finditer(r'\bmatch\s+(\w+)\s*\{', rest):
+        blk = block_after(rest[m.start():], r'\bmatch\s+\w+\s*\{')
+        if 'OwnedDataModelType::Bool' in blk:
+            best = blk
+    if best is None:
+        raise Untranslatable("%s: no match over OwnedDataModelType" % what)
+    rows = []
+    for arm in split_arms(best):
+        m = re.match(r'^OwnedDataModelType::(\w+)\s*(?:\([^)]*\)|\{[^{}]*\})?\s*=>\s*(.*)$', arm, re.S)
+        if not m:
+            raise Untranslatable("%s: arm `%s`" % (what, ' '.join(arm.split())[:80]))
+        rows.append((m.group(1), [unescape(x) for x in LIT.findall(m.group(2))]))
+
+    def tbl(name, rows):
+        return "Definition %s : list (list N * list (list N)) :=\n  [%s]." % (
+            name, ';\n   '.join("(%s, [%s])" % (coq_str(k), '; '.join(coq_str(l) for l in ls)) for k, ls in rows))
+    return tbl('fmt_lits', rows) + "\n" + tbl('fmt_data_lits', drows)
+
+
+def gen_fmt(src, attempt):
+    out = ["(* GENERATED by tools/translate.py from the Rust sources. Do not edit. *)",
+           "From PV Require Import Base.", "Open Scope N_scope.", "",
+           "(* source/postcard-schema/src/schema/fmt.rs: the string literals each arm of the formatter appends, in order *)"]
+    attempt(out, 'schema/fmt.rs:fmt_owned_dmt_to_buf literals',
+            lambda: fmt_literals(src('source/postcard-schema/src/schema/fmt.rs'), 'fmt.rs:fmt_owned_dmt_to_buf'), 'fmt_lits')
+    return '\n'.join(out) + '\n'
+
+
 def gen_panic_arms(src, attempt):
     out = ["(* GENERATED by tools/translate.py from the Rust sources. Do not edit. *)",
            "From PV Require Import Base.", "Open Scope N_scope.", ""]
@@ -356,4 +429,5 @@ def gen_panic_arms(src, attempt):
 def SCHEMA_GENERATORS(src, attempt, problems):
     return [('GenSchemaDecl.v', lambda: gen_schema_decl(src, attempt)),
             ('GenHashTags.v', lambda: gen_hash_tags(src, attempt)),
-            ('GenPanicArms.v', lambda: gen_panic_arms(src, attempt))]
+            ('GenPanicArms.v', lambda: gen_panic_arms(src, attempt)),
+            ('GenFmt.v', lambda: gen_fmt(src, attempt))]
